@@ -35,7 +35,8 @@ def configs_for(prop, tier):
             out.append(cfg('pcm_N3_any_target', n=3, weight=5000, twins=['order_emitted'], validate_every=10, fixed=dict(held={'EQ:B': False, 'EQ:C': False}, inuni={'EQ:A': True}),
                            bound='assets A,B,C; as pcm_N2_any_target with B and C not held and A in the universe (the fully symbolic 3-asset space exceeds 50 000 paths)'))
             out.append(cfg('pcm_N2_two_rounds_any_target', n=2, rounds=2, weight=3000, twins=['order_emitted'], validate_every=10,
-                           bound='2 assets, two successive rebalances with symbolic targets and price moves'))
+                           fixed=dict(held={'EQ:B': False}, inuni={'EQ:A': True, 'EQ:B': True}),
+                           bound='2 assets (A possibly held, B not held, both in the universe, weighted booleans symbolic), two successive rebalances with symbolic targets and price moves'))
             for k, wl in enumerate([[0.6, 0.4], [1.0, 0.0], [0.5, 0.5]]):
                 out.append(cfg('pcm_N2_long_only_w%d' % k, n=2, sizer='long_only', wlist=wl, weight=2000, twins=['order_emitted'], validate_every=5,
                                bound='2 assets, real long-only sizer, concrete weights %s where weighted, holdings/prices/cash symbolic' % wl))
